@@ -291,6 +291,10 @@ func main() {
 	rnd := drv.NewRand(cfg.Seed)
 	w := emit.NewWriter(cfg.Out, "C10_spec", 0, cfg.Only)
 	survey := os.Getenv("C10_SURVEY") != ""
+	if err := selfTest(); err != nil {
+		fmt.Fprintln(os.Stderr, "C10:", err)
+		os.Exit(2)
+	}
 
 	word := func(n int) string {
 		const al = "abcdefghijklmnopqrstuvwxyzABCDEFGHIJKLMNOPQRSTUVWXYZ0123456789-._~ +/&=%"
